@@ -22,6 +22,8 @@ int nondet_int(void);
 size_t nondet_size_t(void);
 long nondet_long(void);
 extern int g_lib_fail;
+extern int g_wf_bad;	/* ghost: OpenSSL REFUSED well-typed input (inconsistent key, unknown curve, point off the curve, PEM not written) */
+extern int g_ec_degree;	/* ghost: field size in bits of the curve of the EC_GROUP handed out */
 
 /* ghosts (defined in stubs/ghost.c, documented in contracts/jwk_parse_c.h) */
 extern const void *g_jwk_tracked_bin; extern const char *g_push_name_of_tracked; extern unsigned g_push_count;
@@ -98,8 +100,10 @@ int EVP_PKEY_fromdata(EVP_PKEY_CTX *ctx, EVP_PKEY **ppkey, int selection, OSSL_P
 {
 	__CPROVER_assert(ctx != NULL && ppkey != NULL && param != NULL, "EVP_PKEY_fromdata: context, result and parameters given");
 	g_fromdata_selection = selection;
-	if (nondet_bool())	/* inconsistent key material: OpenSSL refuses */
+	if (nondet_bool()) {	/* inconsistent key material: OpenSSL refuses */
+		g_wf_bad = 1;
 		return nondet_bool() ? 0 : -1;
+	}
 	EVP_PKEY *k = malloc(sizeof(*k));
 	__CPROVER_assume(k != NULL);
 	k->id = nondet_int();
@@ -126,13 +130,15 @@ int PEM_write_bio_PrivateKey(BIO *out, const EVP_PKEY *x, const EVP_CIPHER *enc,
 {
 	__CPROVER_assert(out != NULL && x != NULL, "PEM_write_bio_PrivateKey: bio and key given");
 	g_pem_private = 1;
-	return nondet_bool() ? 1 : 0;
+	if (nondet_bool()) { g_wf_bad = 1; return 0; }
+	return 1;
 }
 int PEM_write_bio_PUBKEY(BIO *out, const EVP_PKEY *x)
 {
 	__CPROVER_assert(out != NULL && x != NULL, "PEM_write_bio_PUBKEY: bio and key given");
 	g_pem_private = 0;
-	return nondet_bool() ? 1 : 0;
+	if (nondet_bool()) { g_wf_bad = 1; return 0; }
+	return 1;
 }
 long BIO_ctrl(BIO *bp, int cmd, long larg, void *parg)
 {
@@ -162,13 +168,18 @@ int OBJ_sn2nid(const char *s)
 }
 EC_GROUP *EC_GROUP_new_by_curve_name(int nid)
 {
-	if (nondet_bool()) return NULL;	/* unknown curve */
+	if (nondet_bool()) { g_wf_bad = 1; return NULL; }	/* unknown curve */
 	EC_GROUP *g = malloc(sizeof(*g));
 	__CPROVER_assume(g != NULL);
 	g->nid = nid;
 	return g;
 }
 void EC_GROUP_free(EC_GROUP *group) { (void)group; }
+int EC_GROUP_get_degree(const EC_GROUP *group)
+{
+	__CPROVER_assert(group != NULL, "EC_GROUP_get_degree: a group");
+	return g_ec_degree;
+}
 EC_POINT *EC_POINT_new(const EC_GROUP *group)
 {
 	__CPROVER_assert(group != NULL, "EC_POINT_new: a group");
@@ -184,7 +195,8 @@ int EC_POINT_set_affine_coordinates(const EC_GROUP *group, EC_POINT *p, const BI
 	__CPROVER_assert(group != NULL && p != NULL && x != NULL && y != NULL, "EC_POINT_set_affine_coordinates: group, point, x and y given");
 	p->x = x->src; p->y = y->src;
 	g_ec_point_x = x->src; g_ec_point_y = y->src;
-	return nondet_bool() ? 1 : 0;	/* 0: the point is not on the curve */
+	if (nondet_bool()) { g_wf_bad = 1; return 0; }	/* 0: the point is not on the curve */
+	return 1;
 }
 size_t EC_POINT_point2buf(const EC_GROUP *group, const EC_POINT *point, point_conversion_form_t form, unsigned char **pbuf, BN_CTX *ctx)
 {
